@@ -1,9 +1,10 @@
 #!/usr/bin/env python3
-"""store_seed.py <ID> : copy /tmp/seed-<ID> (after seedcheck verify wrote verify.json) to /verif/seeded/<ID>."""
+"""store_seed.py <ID> [round] : copy /tmp/seed[round]-<ID> (after seedcheck verify wrote verify.json) to /verif/seeded/<ID>."""
 import json, os, shutil, subprocess, sys
 pid = sys.argv[1]
-src = f"/tmp/seed-{pid}"
-dst = f"/verif/seeded/{pid}"
+rnd = sys.argv[2] if len(sys.argv) > 2 else ""      # "2" for the second round
+src = f"/tmp/seed{rnd}-{pid}"
+dst = f"/verif/seeded/{pid}" + (f"-{rnd}" if rnd else "")
 os.makedirs(dst, exist_ok=True)
 for f in ("patch.diff", "demo.diff", "notes.md"):
     if os.path.exists(os.path.join(src, f)):
